@@ -856,8 +856,8 @@ STATEMENTS = {
 	'shape_dumps': 'the records and the span tuple Serialization.__dumps writes, as read from the source, are those of the model dumps',
 	'shape_loads': 'the attribute assignments of Serialization.__loads (and the constant assigned to meta.empty), as read from the source, are the model restoredMeta / restored token',
 	'shape_save': "EntryStored.save is json.dumps(data, separators=(',', ':')).encode('utf-8') with every other option default; only Serialization/EntryStored read Entry.source (scan of rogw/)",
-	'shape_identity': 'the tree-cache identity is (grammar_mtime, mtime) filled with the full str(mtime) expressions, pinned verbatim; the parser-pickle identity has the keys mtime, grammar, start, algorithem',
-	'identity_injective': 'the str(identity) text that is hashed determines both mtime strings (plain values); md5 itself is not modelled',
+	'shape_identity': 'the tree-cache identity is (grammar_mtime, grammar, start, algorithem, mtime): the full str(mtime) expressions and the parser setting, pinned verbatim and in this order; the parser-pickle identity has the keys mtime, grammar, start, algorithem',
+	'identity_injective': 'the str(identity) text that is hashed determines all five components, for plain components (printable ASCII without quote and backslash: there repr(s) is the text between single quotes); md5 itself is not modelled',
 	'dumps_ok_iff': 'dumps(t) succeeds exactly when every source_map in the view of t can be read (fails only with AttributeError on a non-empty Meta lacking attributes — never produced by lark)',
 	'store_total': 'for trees whose non-empty metas carry all four attributes (all lark output) store→load always succeeds and preserves the view',
 	'store_total_partial': 'the guard is exact: store→load succeeds (and preserves the view) precisely on the well-formed trees',
@@ -884,9 +884,11 @@ def translate(ctx: Ctx) -> tuple[bool, str]:
 
 
 def stream_identity(ctx: Ctx) -> Stream:
-	"""The tree cache's file name: md5 of the model's `str(identity)` text (generated keys, values = str(mtime) of the grammar
-	and of the source file) vs the name of the cache file the real SyntaxParserOfLark writes."""
+	"""The tree cache's file name: md5 of the model's `str(identity)` text (generated keys; values = str(mtime) of the grammar, the parser setting,
+	str(mtime) of the source file) vs the name of the cache file the real SyntaxParserOfLark writes."""
 	import hashlib
+	from rogw.tranp.syntax.ast.parser import ParserSetting
+	from translate import gen_lark_cache
 	rng = ctx.sub_rng('entry-identity')
 	st = Stream('entry-identity')
 	proj = diskproj.DiskProject(os.path.join(ctx.tmpdir(), 'proj'), ctx.tmpdir())
@@ -905,11 +907,26 @@ def stream_identity(ctx: Ctx) -> Stream:
 			st.disagreements.append({'case': mp, 'real': exc_enum(e), 'model': '(parse of a generated module)'})
 			continue
 		names = [os.path.basename(f) for f in proj.tree_cache_files() if os.path.basename(f).startswith(f'm{i}-')]
-		g = str(os.path.getmtime(os.path.join(common.REPO, 'data/grammar.lark')))
-		m = str(os.path.getmtime(full))
-		lines.append(f'ident\t{hx(g)},{hx(m)}')
+		setting = proj.app([mp]).resolve(ParserSetting)
+		values = {
+			'grammar_mtime': str(os.path.getmtime(os.path.join(common.REPO, setting.grammar))),
+			'grammar': setting.grammar,
+			'start': setting.start,
+			'algorithem': setting.algorithem,
+			'mtime': str(os.path.getmtime(full)),
+		}
+		# the values go to the model in the order of the keys the translator found in the source
+		try:
+			order = [k for k, _ in gen_lark_cache.parser_side()['treeIdentity']]
+		except Exception as e:  # noqa: BLE001 - the translator no longer understands parser.py: the tie is broken, reported by run()
+			st.disagreements.append({'case': mp, 'op': 'identity keys', 'real': f'{type(e).__name__}: {e}', 'model': '(translator)'})
+			break
+		if sorted(order) != sorted(values):
+			st.disagreements.append({'case': mp, 'real': order, 'model': sorted(values), 'op': 'identity keys unknown to the harness'})
+			continue
+		lines.append('ident\t' + ','.join(hx(values[k]) for k in order))
 		real.append(names)
-		descs.append({'module': mp, 'grammar_mtime': g, 'mtime': m})
+		descs.append({'module': mp, **values})
 	model = common.lean_driver('entry', lines)
 	for d, names, out in zip(descs, real, model):
 		st.cases += 1
